@@ -26,7 +26,7 @@ ASSUMPTIONS = ['reference constants: base tx 10 bytes, P2PKH spend 148 bytes wit
                'branch_and_bound / closest_match chosen on their own are partial selectors: refusal judged by that rule\'s own feasibility']
 REQUIRED_HITS = ['O6.refusal_after_reservation', 'O6.injected_sign_failure', 'O1.checked', 'O2.checked', 'O3.checked', 'O4.change_checked', 'O4.nochange_checked', 'O5.refusal_justified',
                  'O5.success_when_sufficient', 'O6.checked', 'branch.retry_loop', 'req.pay', 'req.claim_create', 'req.claim_update',
-                 'req.support', 'req.purchase', 'req.spend_all', 'req.small_deficit', 'req.exact_cover', 'state.change_chain_exhausted_before_build', 'strategy.sqlite', 'strategy.random_draw',
+                 'req.support', 'req.purchase', 'req.spend_all', 'req.small_deficit', 'req.exact_cover', 'pool.has_received_purchase_payments', 'state.change_chain_exhausted_before_build', 'strategy.sqlite', 'strategy.random_draw',
                  'strategy.prefer_confirmed', 'strategy.only_confirmed', 'strategy.branch_and_bound', 'strategy.closest_match',
                  'strategy.standard', 'uclass.round_under_sqlite', 'uclass.liquidation', 'uclass.whale', 'after.broadcast', 'after.keep_reserved']
 DUST = 1000
@@ -126,7 +126,12 @@ async def _run_wallet(rec, case):
             mixed = uclass == 'unconfirmed_mix' or r.random() < 0.25
             height, verified = r.choice([(10 + gi, True), (0, False), (-1, False), (12, False)]) if mixed else (10 + gi, True)
             await fx.fund(g, height=height, is_verified=verified)
-        # a couple of claim outputs to update / abandon, and a pre-existing support
+        # money received for purchases (the seller's side of Transaction.purchase): typed `purchase` in the database and counted as spendable
+        # funds by the balance, by get_utxos and by every in-memory strategy (observation of the C09 agent: the sqlite chooser left it out)
+        if r.random() < (0.9 if uclass in ('tiny_wallet', 'single_big') else 0.3):
+            for _ in range(r.randrange(1, 4)):
+                await fx.fund_purchase_payment(r.randrange(nacc), 0, r.randrange(20), r.choice([int(10 ** r.uniform(3, 11)), int(10 ** r.uniform(3, 11)), 10 ** 8, 148 * rate * 4]))
+            rec.hit('pool.has_received_purchase_payments')
         _, ctxos = await fx.fund([(0, 0, r.randrange(20), r.randrange(1000, 10 ** 8), 'claim') for _ in range(3)] +
                                  [(0, 0, 3, 5000, 'support')], height=9)
         claims = ctxos[:3]
@@ -400,10 +405,10 @@ def eligible(snap, fund_ids, strategy, spend_fee):
     for tid, t in snap.items():
         if t['spent'] or t['is_reserved'] or t['account'] not in fund_ids:
             continue
-        if strategy == 'sqlite':
-            if t['txo_type'] != 0:
-                continue
-        elif t['txo_type'] not in (0, 4):
+        # plain payments and received purchase payments are the wallet's spendable funds (what the balance, get_utxos and the UTXO listing
+        # show); no strategy is documented to leave one of the two out.  (The oracle used to copy the sqlite chooser's own `txo_type = 0`
+        # filter - a clause derived from the implementation instead of the statement, corrected after the C09 workload noticed refusals.)
+        if t['txo_type'] not in (0, 4):
             continue
         if strategy == 'only_confirmed' and not t['height'] > 0:
             continue
@@ -420,12 +425,17 @@ def judge_refusal(rec, kind, strategy, D, P, allsum, elig, pre_ids, rate, output
             P -= max(0, e)
             allsum -= e
     eff = sorted((t['amount'] - spend_fee for tid, t in elig.items() if tid not in pre_ids), reverse=True)
+    # funds held as received purchase payments (txo_type 4): would the refusal be justified if they did not exist?
+    P_plain = sum(max(0, t['amount'] - spend_fee) for tid, t in elig.items() if tid not in pre_ids and t['txo_type'] == 0)
+    only_without_purchase_money = strategy == 'sqlite' and P_plain < P
     if not outputs:
         # empty-output builds: the retry loop inflates the cost up to 4 times and the single output must be a
         # change output above dust; only the clear case is judged
         need = 10 * rate + 5 * (coc + 1) + coc + DUST + 1 + coc_sel - payment
         if P >= need and strategy not in ('branch_and_bound', 'closest_match'):
             mech = 'dust-negative-effective-summed' if allsum < need else 'other'
+            if only_without_purchase_money and P_plain < need:
+                mech = 'sqlite-ignores-received-purchase-payments'
             rec.violation(f'C03/O5/refusal-with-sufficient-funds/empty-output/{mech}',
                           f'{kind} refused (strategy {strategy}) although spendable effective funds {P} >= {need}',
                           {'P': P, 'need': need, 'allsum': allsum, 'strategy': strategy})
@@ -456,7 +466,9 @@ def judge_refusal(rec, kind, strategy, D, P, allsum, elig, pre_ids, rate, output
     if justified:
         rec.hit('O5.refusal_justified')
         return 'refused-justified'
-    if strategy == 'sqlite' and D < 10:
+    if only_without_purchase_money and P_plain < D + slack:
+        mech = 'sqlite-ignores-received-purchase-payments'
+    elif strategy == 'sqlite' and D < 10:
         mech = 'sqlite-floor-zero-for-deficit-below-10'
     elif allsum < D + slack:
         mech = 'dust-negative-effective-summed'
